@@ -325,6 +325,13 @@ RULES = {
     # carries the contract of the prelude's Local::now: `ensures r == clock_now()`)
     "R16": [(".into_iter().map(", ".vmap("), (".filter_map(", ".vfilter_map("), (".reduce(", ".vreduce(")],
     "R16b": [(".unwrap_or_else(Local::now)", ".unwrap_or_else(|| -> (r: DateTime<Local>) ensures r == clock_now() { Local::now() })")],
+    # R3b (computed): a closure whose single parameter is a tuple pattern gets a variable parameter `p0__` and a destructuring `let`
+    "R3b": [],
+    # R20: `x.into_iter()` -> `x.vinto_iter()`: the eager iterator of prelude/viter.rs, whose inherent methods carry the names of the
+    # Iterator adapters (the general form of R16)
+    "R20": [(".into_iter()", ".vinto_iter()")],
+    # R19: the fn item `Into::into` as a closure value (argument type `S`, result String) -> a closure with the contract of into()
+    "R19": [(".map(Into::into)", ".map(|x: S| -> (r: String) ensures r@ == into_string::<S>(x) { x.into() })")],
     # R18: the fn item `String::len` as a closure value -> a closure with the contract of the prelude's String::len
     "R18": [("map_or(0, String::len)", "map_or(0, |s: &String| -> (r: usize) ensures r == byte_len(s@) { s.len() })")],
     # R17 (computed): `v.iter().map(f).max()` -> shim `v.vmax_map(f)`, `v.iter().map(f).min()` -> `v.vmin_map(f)`
@@ -345,6 +352,7 @@ RULES = {
 }
 
 
+CURRENT_D = None
 LITERALS = {}
 LIT_MARK = "\x00LITERALS\x00"
 
@@ -380,6 +388,34 @@ def apply_rule(sf, a, b, rule, edits):
                         edits.replace(k, k + 1, [Piece("self_", sf, toks[k].start)])
                 hits += 1
                 break
+        return hits
+    if rule == "R3b":
+        # a closure whose single parameter is a tuple pattern `|(a, b)| body` -> `|p0__| { let (a, b) = p0__; body }`
+        # (Verus: closure parameters must be variables)
+        cls_all = find_closures(sf, a, b)
+        annotated = set()
+        for n in (CURRENT_D.closures if CURRENT_D is not None else {}):
+            if isinstance(n, str):
+                snip = norm(n[1:])
+                cands = [c for c in cls_all if snip in norm_tokens(toks[c[0]:c[3]])]
+                if cands:
+                    annotated.add(min(cands, key=lambda c: c[3] - c[0])[0])
+            elif 1 <= n <= len(cls_all):
+                annotated.add(cls_all[n - 1][0])
+        for (p0, p1, body, bend, block) in cls_all:
+            if p0 in annotated:
+                continue    # annotated closures name their parameter in `sig` and destructure with the `let` option
+            inner = [k for k in range(p0 + 1, p1) if toks[k].kind not in TRIVIA]
+            if not inner or toks[inner[0]].text != "(" or sf.br[inner[0]] != inner[-1]:
+                continue
+            pat_text = sf.text[toks[inner[0]].start:toks[inner[-1]].end]
+            edits.replace(inner[0], inner[-1] + 1, [Piece("p0__", sf, toks[inner[0]].start)])
+            if block:
+                edits.insert_before(body + 1, [Piece(" let %s = p0__;" % pat_text, label="kw")])
+            else:
+                edits.insert_before(body, [Piece("{ let %s = p0__; " % pat_text, label="kw")])
+                edits.insert_before(bend, [Piece(" }", label="kw")])
+            hits += 1
         return hits
     if rule == "R17":
         pat = [".", "iter", "(", ")", ".", "map", "("]
@@ -832,13 +868,23 @@ def weave_closures(d, sf, lo, hi, ed, rule_hits):
                     ps.append(Piece(cind + "        " + c.text.rstrip().rstrip(",") + ",\n", label=c.label))
         if ps:
             ps.append(Piece(cind, label="kw"))
+        lets = spec.get("let")
         if not block:
-            ps.append(Piece("{ ", label="kw"))
+            ps.append(Piece("{ " + ("".join(l + " " for l in lets) if lets else ""), label="kw"))
             ed.insert_before(bend, [Piece(" }", label="kw")])
+        elif lets:
+            # a destructuring `let` for a parameter that was a pattern (Verus: closure parameters must be variables)
+            ed.insert_before(body + 1, [Piece(" " + " ".join(lets), label="kw")])
         ed.insert_before(body, ps)
 
 
 def render_span(d, it, repo_root, registry):
+    global CURRENT_D
+    CURRENT_D = d
+    return _render_span(d, it, repo_root, registry)
+
+
+def _render_span(d, it, repo_root, registry):
     """statements of a function body, from the statement starting with `from` up to and including the block
     statement starting with `upto` (the thread closure body that cannot be named as a function)"""
     sf = it.sf
@@ -936,6 +982,8 @@ def render_bytesconst(d, it, repo_root, registry):
 
 def render_item(d, it, repo_root, registry):
     """returns list of Pieces for one matched item under directive d"""
+    global CURRENT_D
+    CURRENT_D = d
     if d.mode == "span":
         return render_span(d, it, repo_root, registry)
     if d.bytesconst:
@@ -1161,7 +1209,9 @@ def parse_options(d, lines, unit_name):
                 arg = sub[sub.index("["):] + " " + arg
                 sub = sub[:sub.index("[")]
             spec = d.closures.setdefault(n if n.startswith("~") else int(n), {})
-            if sub == "sig":
+            if sub == "let":
+                spec.setdefault("let", []).append(arg)
+            elif sub == "sig":
                 spec["sig"] = arg
             elif sub in ("req", "ens"):
                 c = mk(sub, arg, d.props, ".closure" + re.sub(r"\W+", "_", str(n)))
